@@ -3,12 +3,14 @@ package main
 func init() {
 	props["C06"] = &Prop{
 		ID: "C06", PkgDir: "interp", PkgPath: interpPath, PkgName: "interp",
-		Harness:    []string{"interp_common.go", "C06.go"},
+		Harness:    []string{"interp_common.go", "big_common.go", "C06.go"},
 		Instrument: runidInstr,
 		Obligs: func(tier string) []Oblig {
 			return []Oblig{
 				{Harness: "vh_C06_unwind", Unroll: 8},
 				{Harness: "vh_C06_execute", Unroll: 8},
+				{Harness: "vh_C06_reuse", Unroll: 8},
+				{Harness: "vh_C06_defer_args", Unroll: 8},
 			}
 		},
 		Bounds:      []string{"defer stack of 0..3 entries", "each deferred callee: returns / recovers / panics with a new value", "body: returns or panics", "Execute: root program panics with an arbitrary string value or returns"},
